@@ -388,6 +388,9 @@ def run(run, model):
     run.rule("R19.7", "every Go name slot is mangled (shared with C02 R02.8): a selector written with the raw goml name may be a Go keyword")
     run.try_rule(c02.r02_8, model)
     run.try_rule(r19_5, model)
+    # renaming a local must not change what the program means: a binder named like a variant stays a binder (shared with C05 R05.9)
+    from rules import c05 as _c05
+    run.try_rule(_c05.r05_9, model)
     run.try_rule(r19_1, model)
     run.try_rule(r19_2, model)
     run.try_rule(r19_3, model)
